@@ -200,6 +200,17 @@ def heap_trace(run, profiles, n, collections, seed, label, claims):
             return f
         return go
     hfiles = parallel([hjob(i, p) for i, p in enumerate(profiles)], nproc=4)
+    # the hand-written closure and table idioms too (they end, like every run, with a collection after the run)
+    import probes
+    idioms = [probes.C06_IDIOMS[k] for k in sorted(probes.C06_IDIOMS)] + [probes.C07_IDIOMS[k] for k in sorted(probes.C07_IDIOMS)]
+    icases = os.path.join(d, "idioms.cases")
+    with open(icases, "w") as fh:
+        for i, pr in enumerate(idioms):
+            fh.write(json.dumps({"id": i, "prog": pr}) + "\n")
+    fi = os.path.join(d, "heap-idioms.ndjson")
+    drive_trace(["heap-drive", "--profile", "idioms", "--cases", icases, "--seed", seed, "--n", len(idioms), "--collections", collections], fi, len(idioms),
+                timeout=1800)
+    hfiles.append(fi)
     ncoll = sum(1 for f in hfiles for l in open(f) if '"Snapshot"' in l)
     nfree = sum(1 for f in hfiles for l in open(f) if '"Free"' in l)
     nq = sum(1 for f in hfiles for l in open(f) if '"Quiesce"' in l)
